@@ -1,5 +1,26 @@
 (* C03 (kill at any instant) and C04 (failing system call, retry) for commit / checkout, over the
-   cut semantics of Model/Crash.v.  Every theorem is followed by Print Assumptions. *)
+   cut semantics of Model/Crash.v.  No axioms; every theorem is followed by Print Assumptions
+   (theorems inside a Section: after its End).
+
+   C03, one file      C03_file_no_loss, C03_file_no_torn, C03_file_cache_le
+   C03, trees         C03_no_loss (= C03_no_loss_b, the executable statement of Corr/RunCrash.v),
+                      C03_no_torn_object, C03_cache_grows,
+                      C03_cut_endpoints (+ C03_initial_is_cut, C03_final_cut_is_result)
+   C03, checkout      C03_checkout_no_loss (monotonicity of [retrievable]),
+                      C03_checkout_no_loss_files, C03_checkout_endpoints
+   C03, metadata      C03_metadata_atomic
+   C03, which paths can have the entry absent
+                      C03_xdev_never_absent, C03_copy_never_absent, C03_rename_window,
+                      C03_prerepair_refuted (old cross-device link path: retry drops the entry)
+   C04, one file      C04_fail_is_cut, C04_fail_states, C04_entry_never_missing,
+                      C04_norollback_entry_missing, C04_retry, C04_rerun_from_cut
+   C04, directories   C04_retry_dir_flat (one level, all entries regular files)
+   membership test    in_file_commit_cuts_b_sound / _complete
+
+   Premises: [H_inj H] (collision freedom) where two writers of one digest must agree on the
+   bytes; [keyed H c] (= cache_ok without the mode clause) or [cache_ok H c] for the initial
+   cache; [plain n] (files and directories, sorted good names; only distinctness of names is
+   used: [ftree]). *)
 From Coq Require Import NArith List Bool Sorted Permutation Lia.
 From DudV Require Import Base.Bytes Base.Json Model.Fs Model.Cache Model.Crash
   Proofs.CacheDefs Proofs.CommitProofs Proofs.CheckoutProofs.
@@ -886,3 +907,576 @@ End Checkout.
 Print Assumptions C03_checkout_no_loss.
 Print Assumptions C03_checkout_no_loss_files.
 Print Assumptions C03_checkout_endpoints.
+
+(* ------------------------------------------------------------------------------------------ *)
+(* C03: stage files and the index                                                              *)
+(* ------------------------------------------------------------------------------------------ *)
+
+Theorem C03_metadata_atomic {A} (old new x : A) : In x (meta_cuts old new) -> x = old \/ x = new.
+Proof. intros [<-|[<-|[]]]; [left|right]; reflexivity. Qed.
+Print Assumptions C03_metadata_atomic.
+
+(* ------------------------------------------------------------------------------------------ *)
+(* C04: a failing system call, the repaired rollback, the retry                                *)
+(* ------------------------------------------------------------------------------------------ *)
+
+Section Fail.
+  Variable H : bytes -> bytes.
+
+  Lemma cget_capply_wr c b m l :
+    (forall e, In e l -> exists m', e = wr H b m') ->
+    exists m', cget (capply c (wr H b m :: l)) (H b) = Some (mkObj b m').
+  Proof.
+    intros Hl. destruct (cget_capply_in (wr H b m :: l) c (H b) (mkObj b m) (or_introl eq_refl))
+      as (o' & Hg & Hin).
+    destruct Hin as [He|Hin].
+    - injection He as <-. exists m. exact Hg.
+    - destruct (Hl _ Hin) as (m' & He). injection He as ->. exists m'. exact Hg.
+  Qed.
+
+  (* the state left by a failing call is a cut, or a cut followed by the restoration *)
+  Theorem C04_fail_is_cut st cr b c x :
+    In x (file_commit_fail_states H st cr b c) ->
+    exists y, In y (file_commit_cuts H st cr b c) /\ (x = y \/ (fst y = None /\ x = restore_ws H b y)).
+  Proof.
+    unfold file_commit_fail_states, file_commit_cuts, file_commit_steps.
+    intros Hin. apply in_map_iff in Hin as ([s l] & <- & Hin). cbn [fst snd].
+    exists (s, capply c l). split.
+    - apply in_map_iff. exists (s, l). split; [reflexivity|]. apply in_or_app. left. exact Hin.
+    - destruct s as [n|]; [left; reflexivity|right; split; reflexivity].
+  Qed.
+
+  (* explicit form: the entry is the regular file with its bytes, the cache is the initial one,
+     or holds the object before its chmod, or is the final one *)
+  Theorem C04_fail_states st cr b c s c' :
+    In (s, c') (file_commit_fail_states H st cr b c) ->
+    s = Some (File b) /\
+    (c' = c \/ c' = capply c [wr H b (src_mode st cr)] \/ c' = cput c (H b) b).
+  Proof.
+    unfold file_commit_fail_states. intros Hin. apply in_map_iff in Hin as ([s0 l] & He & Hin).
+    cbn [fst snd] in He.
+    assert (Hcases : (s0 = Some (File b) \/ s0 = None /\ l <> []) /\
+                     (l = [] \/ l = [wr H b (src_mode st cr)] \/
+                      l = [wr H b (src_mode st cr); wr H b cache_perms])).
+    { unfold file_commit_mid in Hin.
+      destruct st, cr; cbn [In] in Hin;
+        repeat (destruct Hin as [Hin|Hin]; [injection Hin as <- <-|]); try destruct Hin;
+        (split; [first [left; reflexivity | right; split; [reflexivity|discriminate]]|]);
+        first [left; reflexivity | right; left; reflexivity | right; right; reflexivity]. }
+    destruct Hcases as [Hs Hl].
+    assert (Hc' : snd (restore_ws H b (s0, capply c l)) = capply c l).
+    { unfold restore_ws. cbn [fst snd]. destruct s0; [reflexivity|].
+      destruct (cget (capply c l) (H b)); reflexivity. }
+    assert (Hs' : fst (restore_ws H b (s0, capply c l)) = Some (File b)).
+    { destruct Hs as [->|[-> Hne]]; [reflexivity|].
+      unfold restore_ws. cbn [fst snd].
+      destruct Hl as [->|[->| ->]]; [congruence| |].
+      - destruct (cget_capply_wr c b (src_mode st cr) [] (fun e (F : In e []) => match F with end))
+          as (m' & ->). reflexivity.
+      - destruct (cget_capply_wr c b (src_mode st cr) [wr H b cache_perms]) as (m' & ->); [|reflexivity].
+        intros e [<-|[]]. eexists. reflexivity. }
+    rewrite He in Hc', Hs'. cbn [fst snd] in Hc', Hs'. split; [exact Hs'|].
+    rewrite Hc'. destruct Hl as [->|[->| ->]].
+    - left. reflexivity.
+    - right. left. reflexivity.
+    - right. right. apply capply_two.
+  Qed.
+
+  (* the workspace entry is never missing after a failed file commit, on either link path *)
+  Theorem C04_entry_never_missing st cr b c s c' :
+    In (s, c') (file_commit_fail_states H st cr b c) -> s <> None.
+  Proof. intros Hin. destruct (C04_fail_states _ _ _ _ _ _ Hin) as [-> _]. discriminate. Qed.
+
+  (* without the rollback the rename path does lose the entry (the object is in the cache) *)
+  Theorem C04_norollback_entry_missing b c :
+    exists c', In (None, c') (file_commit_fail_states_norollback H Link true b c).
+  Proof. eexists. right. left. reflexivity. Qed.
+
+  Lemma cput_twice c d b : cput (cput c d b) d b = cput c d b.
+  Proof. unfold cput. apply ins_sorted_twice. Qed.
+
+  Lemma cput_after_wr c b m : cput (capply c [wr H b m]) (H b) b = cput c (H b) b.
+  Proof. cbn [capply fold_left]. unfold cwrite, wr, cput. cbn [fst snd]. apply ins_sorted_twice. Qed.
+
+  (* the retry of a failed file commit does exactly what the undisturbed commit does: same
+     entry, same cache (object modes included), same recorded artifact *)
+  Theorem C04_retry st cr a b c s c1 :
+    a_isdir a = false -> a_skip a = false ->
+    In (s, c1) (file_commit_fail_states H st cr b c) ->
+    exists n1, s = Some n1 /\ commit_node H a n1 c1 st = commit_node H a (File b) c st /\
+               exists nf cf af, commit_node H a (File b) c st = Ok (nf, cf, af).
+  Proof.
+    intros Hd Hs Hin. destruct (C04_fail_states _ _ _ _ _ _ Hin) as [-> Hc].
+    exists (File b). split; [reflexivity|].
+    rewrite !(commit_node_nondir H st a (File b) _ Hd).
+    unfold commit_file. rewrite !qmatch_file, Hs. split.
+    - destruct Hc as [->|[->| ->]]; [reflexivity| |].
+      + rewrite cput_after_wr. reflexivity.
+      + rewrite cput_twice. reflexivity.
+    - destruct st; do 3 eexists; reflexivity.
+  Qed.
+
+  (* also after a KILL, when the entry is present, the rerun ends in the same entry, cache and
+     checksum as the undisturbed commit *)
+  Theorem C04_rerun_from_cut st cr a b c n1 c1 :
+    a_isdir a = false -> a_skip a = false ->
+    In (Some n1, c1) (file_commit_cuts H st cr b c) ->
+    exists nf cf af af', commit_node H a (File b) c st = Ok (nf, cf, af) /\
+                         commit_node H a n1 c1 st = Ok (nf, cf, af') /\ a_cs af' = a_cs af.
+  Proof.
+    intros Hd Hs Hin. unfold file_commit_cuts in Hin.
+    apply in_map_iff in Hin as ([s0 l] & He & Hin). cbn [fst snd] in He. injection He as -> <-.
+    rewrite !(commit_node_nondir H st a _ _ Hd).
+    assert (Hfile : forall l0, cput (capply c l0) (H b) b = cput c (H b) b ->
+              exists nf cf af af', commit_file H a (File b) c st = Ok (nf, cf, af) /\
+                commit_file H a (File b) (capply c l0) st = Ok (nf, cf, af') /\ a_cs af' = a_cs af).
+    { intros l0 Hl0. unfold commit_file. rewrite !qmatch_file, Hs, Hl0.
+      destruct st; do 4 eexists; (split; [reflexivity|split; reflexivity]). }
+    unfold file_commit_steps, file_commit_mid, file_commit_fin in Hin.
+    destruct st, cr; cbn [app In] in Hin;
+      repeat (destruct Hin as [Hin|Hin]; [first [discriminate Hin | injection Hin as <- <-]|]);
+      try destruct Hin;
+      try (apply Hfile; first [reflexivity | apply cput_after_wr | rewrite capply_two; apply cput_twice]).
+    (* the two link paths, final cut: the link is recognised (matching or adopted) *)
+    all: rewrite capply_two;
+      unfold commit_file at 1; rewrite qmatch_file, Hs;
+      unfold commit_file;
+      assert (Hg : in_cache (cput c (H b) b) (H b) = true)
+        by (unfold in_cache; rewrite cget_cput, beqb_refl; reflexivity);
+      destruct (qmatch (cput c (H b) b) (a_cs a) (Some (LinkC (H b)))) eqn:Eq;
+      [ apply qmatch_inv in Eq as (_ & Eq & _); injection Eq as Eq;
+        do 4 eexists; split; [reflexivity|split; [reflexivity|]]; cbn [set_cs a_cs]; symmetry; exact Eq
+      | rewrite Hg; do 4 eexists; split; [reflexivity|split; reflexivity] ].
+  Qed.
+End Fail.
+
+Print Assumptions C04_fail_is_cut.
+Print Assumptions C04_fail_states.
+Print Assumptions C04_entry_never_missing.
+Print Assumptions C04_norollback_entry_missing.
+Print Assumptions C04_retry.
+Print Assumptions C04_rerun_from_cut.
+
+(* ------------------------------------------------------------------------------------------ *)
+(* the executable membership test                                                              *)
+(* ------------------------------------------------------------------------------------------ *)
+
+Lemma cache_matchb_refl c : cache_matchb c c = true.
+Proof.
+  induction c as [|[k v] r IH]; [reflexivity|]. cbn [cache_matchb].
+  rewrite !beqb_refl, IH. unfold mode_okb. rewrite N.eqb_refl. reflexivity.
+Qed.
+
+Theorem in_file_commit_cuts_b_sound H st cr b c slot c' :
+  in_file_commit_cuts_b H st cr b c slot c' = true ->
+  exists s cc, In (s, cc) (file_commit_cuts H st cr b c) /\
+               onode_eqb s slot = true /\ cache_matchb cc c' = true.
+Proof.
+  unfold in_file_commit_cuts_b. intros Hex. apply existsb_exists in Hex as ([s cc] & Hin & Hb).
+  cbn [fst snd] in Hb. apply andb_true_iff in Hb as [Hb1 Hb2]. exists s, cc. repeat split; assumption.
+Qed.
+
+Theorem in_file_commit_cuts_b_complete H st cr b c s cc :
+  In (s, cc) (file_commit_cuts H st cr b c) -> in_file_commit_cuts_b H st cr b c s cc = true.
+Proof.
+  intros Hin. unfold in_file_commit_cuts_b. apply existsb_exists. exists (s, cc).
+  split; [exact Hin|]. cbn [fst snd]. rewrite cache_matchb_refl, andb_true_r.
+  unfold file_commit_cuts in Hin. apply in_map_iff in Hin as ([s0 l] & He & Hin).
+  cbn [fst snd] in He. injection He as <- _.
+  destruct (file_steps_spec H st cr b s0 l Hin) as (_ & _ & [->|([-> | ->] & _)]);
+    cbn [onode_eqb node_eqb]; try reflexivity; apply beqb_refl.
+Qed.
+Print Assumptions in_file_commit_cuts_b_sound.
+Print Assumptions in_file_commit_cuts_b_complete.
+
+(* the executable forms of the C03 statements agree with the Prop forms *)
+Lemma retrievable_b_iff H c' s p b : retrievable_b H c' s p b = true <-> retrievable H c' s p b.
+Proof.
+  unfold retrievable_b, retrievable, cget. rewrite orb_true_iff.
+  assert (Hobj : forall d, match alookup d c' with Some o => beqb (o_data o) b | None => false end = true <->
+                           exists o, alookup d c' = Some o /\ o_data o = b).
+  { intros d. destruct (alookup d c') as [o|].
+    - rewrite beqb_eq. split; [intros Ho; exists o; split; [reflexivity|exact Ho]|].
+      intros (o' & Ho' & Hd). injection Ho' as <-. exact Hd.
+    - split; [discriminate|]. intros (o' & Ho' & _). discriminate. }
+  rewrite Hobj.
+  assert (Hl : match oget s p with
+               | Some (File b') => beqb b b'
+               | Some (LinkC d) => match alookup d c' with Some o => beqb (o_data o) b | None => false end
+               | _ => false
+               end = true <->
+               match oget s p with
+               | Some (File b') => b' = b
+               | Some (LinkC d) => exists o, alookup d c' = Some o /\ o_data o = b
+               | _ => False
+               end).
+  { destruct (oget s p) as [[b'|d|t|es|]|]; try (split; [discriminate|intros []]).
+    - rewrite beqb_eq. split; intros E; symmetry; exact E.
+    - apply Hobj. }
+  rewrite Hl. reflexivity.
+Qed.
+
+Lemma no_loss_b_iff H c n s' c' : no_loss_b H c n s' c' = true <-> no_loss H c n s' c'.
+Proof.
+  unfold no_loss_b, no_loss. rewrite forallb_forall. split.
+  - intros Hall p b Hin. apply retrievable_b_iff. exact (Hall (p, b) Hin).
+  - intros Hall [p b] Hin. apply retrievable_b_iff. exact (Hall p b Hin).
+Qed.
+
+(* C03_no_loss as the statement of the check of Corr/RunCrash.v (spec_no_loss) *)
+Theorem C03_no_loss_b H st cr a n c s' c' :
+  H_inj H -> plain n -> commit_cut H st cr a n c (s', c') -> no_loss_b H c n s' c' = true.
+Proof. intros Hinj Hp Hcut. apply no_loss_b_iff. exact (C03_no_loss H st cr a n c s' c' Hinj Hp Hcut). Qed.
+Print Assumptions C03_no_loss_b.
+
+(* ------------------------------------------------------------------------------------------ *)
+(* the link path on a cross-device cache before the repair                                     *)
+(* ------------------------------------------------------------------------------------------ *)
+
+Definition Hx (b : bytes) : bytes := 1 :: 2 :: 3 :: b.
+Lemma Hx_inj : H_inj Hx.
+Proof. intros a b E. injection E as E. exact E. Qed.
+
+Definition ex_x : bytes := [120; 121].
+Definition ex_dir_art : artifact := mkArt [] [100] true false false.
+Definition ex_dir : node := Dir [([97], File ex_x)].
+
+(* With the OLD sequence (copy, chmod, UNLINK W, symlink W) there is a cut in which W is absent.
+   The bytes are in the cache (C03 holds), but the workspace directory is then [Dir []], and
+   committing it again (the retry) records an EMPTY directory: the entry is dropped, and the
+   checksum differs from the one of the undisturbed commit. *)
+Theorem C03_prerepair_refuted :
+  In (None, cput [] (Hx ex_x) ex_x) (file_commit_cuts_prerepair Hx ex_x []) /\
+  retrievable Hx (cput [] (Hx ex_x) ex_x) None [] ex_x /\
+  entries_of [([97], @None node)] = [] /\
+  exists cf af c' a',
+    commit_node Hx ex_dir_art ex_dir [] Link = Ok (Dir [([97], LinkC (Hx ex_x))], cf, af) /\
+    commit_node Hx ex_dir_art (Dir []) (cput [] (Hx ex_x) ex_x) Link = Ok (Dir [], c', a') /\
+    a_cs a' <> a_cs af /\
+    (exists o m, cget c' (a_cs a') = Some o /\ dec_manifest (o_data o) = Some m /\ m_contents m = []).
+Proof.
+  split; [|split; [|split]].
+  - right. right. right. left. reflexivity.
+  - right. eexists. split; reflexivity.
+  - reflexivity.
+  - do 4 eexists. split; [vm_compute; reflexivity|]. split; [vm_compute; reflexivity|]. split.
+    + cbn [a_cs]. intros E. discriminate E.
+    + do 2 eexists. split; [vm_compute; reflexivity|]. split; vm_compute; reflexivity.
+Qed.
+Print Assumptions C03_prerepair_refuted.
+
+(* with the repaired sequence the entry is never absent on a cross-device cache, in any cut *)
+Theorem C03_xdev_never_absent H b c s c' :
+  In (s, c') (file_commit_cuts H Link false b c) -> s <> None.
+Proof.
+  unfold file_commit_cuts. intros Hin. apply in_map_iff in Hin as ([s0 l] & He & Hin).
+  cbn [fst snd] in He. injection He as <- _.
+  cbn in Hin. repeat (destruct Hin as [Hin|Hin]; [injection Hin as <- _; discriminate|]). destruct Hin.
+Qed.
+Theorem C03_copy_never_absent H cr b c s c' :
+  In (s, c') (file_commit_cuts H Copy cr b c) -> s <> None.
+Proof.
+  unfold file_commit_cuts. intros Hin. apply in_map_iff in Hin as ([s0 l] & He & Hin).
+  cbn [fst snd] in He. injection He as <- _.
+  destruct cr; cbn in Hin;
+    repeat (destruct Hin as [Hin|Hin]; [injection Hin as <- _; discriminate|]); destruct Hin.
+Qed.
+(* on the rename path a KILL between rename and symlink leaves the entry absent (the bytes are
+   in the cache: C03_file_no_loss); only a FAILING call is rolled back (C04_entry_never_missing) *)
+Theorem C03_rename_window H b c :
+  In (None, capply c [wr H b file_mode]) (file_commit_cuts H Link true b c) /\
+  In (None, cput c (H b) b) (file_commit_cuts H Link true b c).
+Proof.
+  split.
+  - right. left. reflexivity.
+  - right. right. left. cbn [fst snd]. rewrite <- (capply_two H c b file_mode). reflexivity.
+Qed.
+Print Assumptions C03_xdev_never_absent.
+Print Assumptions C03_copy_never_absent.
+Print Assumptions C03_rename_window.
+
+(* ------------------------------------------------------------------------------------------ *)
+(* non-vacuity                                                                                 *)
+(* ------------------------------------------------------------------------------------------ *)
+
+Example ex_file_cuts_rename :
+  file_commit_cuts Hx Link true ex_x [] =
+  [(Some (File ex_x), []);
+   (None, [(Hx ex_x, mkObj ex_x 420)]);
+   (None, [(Hx ex_x, mkObj ex_x 292)]);
+   (Some (LinkC (Hx ex_x)), [(Hx ex_x, mkObj ex_x 292)])].
+Proof. reflexivity. Qed.
+
+Example ex_file_cuts_xdev :
+  file_commit_cuts Hx Link false ex_x [] =
+  [(Some (File ex_x), []);
+   (Some (File ex_x), [(Hx ex_x, mkObj ex_x 384)]);
+   (Some (File ex_x), [(Hx ex_x, mkObj ex_x 292)]);
+   (Some (LinkC (Hx ex_x)), [(Hx ex_x, mkObj ex_x 292)])].
+Proof. reflexivity. Qed.
+
+Example ex_file_cuts_copy :
+  file_commit_cuts Hx Copy false ex_x [] =
+  [(Some (File ex_x), []);
+   (Some (File ex_x), [(Hx ex_x, mkObj ex_x 384)]);
+   (Some (File ex_x), [(Hx ex_x, mkObj ex_x 292)])].
+Proof. reflexivity. Qed.
+
+Example ex_fail_states_rename :
+  file_commit_fail_states Hx Link true ex_x [] =
+  [(Some (File ex_x), []);
+   (Some (File ex_x), [(Hx ex_x, mkObj ex_x 420)]);
+   (Some (File ex_x), [(Hx ex_x, mkObj ex_x 292)])].
+Proof. reflexivity. Qed.
+
+(* the membership test: a transient object may have any mode; a torn object, or an absent
+   entry on the cross-device path, is rejected *)
+Example ex_member_transient :
+  in_file_commit_cuts_b Hx Link true ex_x [] None [(Hx ex_x, mkObj ex_x 384)] = true.
+Proof. reflexivity. Qed.
+Example ex_member_torn :
+  in_file_commit_cuts_b Hx Link true ex_x [] None [(Hx ex_x, mkObj [120] 292)] = false.
+Proof. reflexivity. Qed.
+Example ex_member_absent_xdev :
+  in_file_commit_cuts_b Hx Link false ex_x [] None [(Hx ex_x, mkObj ex_x 292)] = false.
+Proof. reflexivity. Qed.
+
+(* a directory cut that no sequential schedule produces: BOTH children have been renamed into
+   the cache and neither has been linked yet; the two writes appear in the other order *)
+Definition ex_y : bytes := [122].
+Definition ex_dir2 : node := Dir [([97], File ex_x); ([98], File ex_y)].
+
+Example ex_dir_cut_concurrent :
+  commit_cut Hx Link true ex_dir_art ex_dir2 []
+             (Some (Dir []), capply [] [wr Hx ex_y file_mode; wr Hx ex_x file_mode]).
+Proof.
+  assert (Hu : forall k, utf8_name [k] = true -> utf8_name [k] = true) by (intros k E; exact E).
+  assert (Ka : ccut Hx Link true (cchild [] [97] (File ex_x)) (File ex_x) []
+                    None [wr Hx ex_x file_mode] None).
+  { apply cc_file_mid; [reflexivity|reflexivity|]. right. left. reflexivity. }
+  assert (Kb : ccut Hx Link true (cchild [] [98] (File ex_y)) (File ex_y)
+                    (next_cache Hx Link (cchild [] [97] (File ex_x)) (File ex_x) [])
+                    None [wr Hx ex_y file_mode] None).
+  { apply cc_file_mid; [reflexivity|reflexivity|]. right. left. reflexivity. }
+  pose proof (kc_child Hx Link true false [] [98] (File ex_y) [] _ _ _ None [] [] (Some [])
+                       eq_refl eq_refl Kb (kc_nil Hx Link true false [] _)) as K2.
+  pose proof (kc_child Hx Link true false [] [97] (File ex_x) _ _ _ _ None _ _ _
+                       eq_refl eq_refl Ka K2) as K1.
+  apply (commit_cut_intro Hx Link true ex_dir_art ex_dir2 [] _ _ None).
+  exact (cc_dir Hx Link true ex_dir_art _ [] [] _ _ _ _ eq_refl eq_refl K1 (perm_swap _ _ [])).
+Qed.
+
+(* ... and C03_no_loss applies to it: both files are retrievable (from the cache) *)
+Example ex_dir_cut_no_loss :
+  no_loss Hx [] ex_dir2 (Some (Dir []))
+          (capply [] [wr Hx ex_y file_mode; wr Hx ex_x file_mode]).
+Proof.
+  apply (C03_no_loss Hx Link true ex_dir_art ex_dir2 [] _ _ Hx_inj); [|exact ex_dir_cut_concurrent].
+  constructor.
+  - repeat constructor; cbn; reflexivity.
+  - repeat constructor; vm_compute; try reflexivity; repeat constructor; intros d Hd;
+      cbn in Hd; repeat (destruct Hd as [<-|Hd]; [vm_compute; reflexivity|]); destruct Hd.
+Qed.
+
+(* a checkout cut with a partially written file *)
+Example ex_checkout_partial :
+  checkout_cut Copy [(Hx ex_x, mkObj ex_x 292)] 1 (mkArt (Hx ex_x) [102] false false false)
+               None (Some (File [120])).
+Proof.
+  apply oc_file; [reflexivity|]. vm_compute. right. right. left. reflexivity.
+Qed.
+
+(* the final state of the example directory commit is a cut (C03_cut_endpoints is not vacuous) *)
+Example ex_commit_succeeds :
+  exists nf cf af, commit_node Hx ex_dir_art ex_dir2 [] Link = Ok (nf, cf, af).
+Proof. do 3 eexists. vm_compute. reflexivity. Qed.
+
+(* ------------------------------------------------------------------------------------------ *)
+(* C04: retry of a failed commit of a FLAT directory (all entries regular files)               *)
+(* ------------------------------------------------------------------------------------------ *)
+
+Section RetryDir.
+  Variable H : bytes -> bytes.
+  Variable st : strategy.
+
+  (* the workspace after the failed run: every entry is still there, as the regular file
+     (untouched, or put back by the rollback) or, for an entry the run completed under the
+     link strategy, as the link to its object *)
+  Definition flat_state (old : list (bytes * artifact)) (e e1 : bytes * node) : Prop :=
+    fst e1 = fst e /\
+    exists b, snd e = File b /\
+      (snd e1 = File b \/
+       (snd e1 = LinkC (H b) /\ st = Link /\ a_skip (child_of old (fst e) (File b)) = false)).
+
+  Lemma child_of_isdir old name ch : a_isdir (child_of old name ch) = is_dir ch.
+  Proof.
+    unfold child_of. destruct (alookup name old) as [oa|]; [|reflexivity].
+    destruct (Bool.eqb (a_isdir oa) (is_dir ch)) eqn:E; [apply eqb_prop; exact E|reflexivity].
+  Qed.
+
+  Lemma in_cache_cput c d b d' : in_cache (cput c d b) d' = beqb d' d || in_cache c d'.
+  Proof. unfold in_cache. rewrite cget_cput. destruct (beqb d' d); reflexivity. Qed.
+
+  Lemma set_cs_same a : set_cs a (a_cs a) = a.
+  Proof. destruct a; reflexivity. Qed.
+
+  Lemma commit_file_in_cache_mono a n c n' c' a' d :
+    commit_file H a n c st = Ok (n', c', a') -> in_cache c d = true -> in_cache c' d = true.
+  Proof.
+    intros Hok Hd. apply commit_file_inv in Hok
+      as [(_ & _ & -> & _)|[(_ & b0 & _ & _ & [(_ & _ & ->)|(_ & -> & _)])|(d0 & o & _ & _ & _ & -> & _)]];
+      try exact Hd.
+    rewrite in_cache_cput, Hd. apply orb_true_r.
+  Qed.
+
+  Lemma flat_entries_retry nr old es es1 :
+    H_inj H -> Forall2 (flat_state old) es es1 ->
+    forall c c1 es' cf m, cache_ok H c ->
+      commit_entries (commit_node H) nr old st es c = Ok (es', cf, m) ->
+      (forall d, in_cache c d = true -> in_cache c1 d = true) ->
+      (forall name b, In (name, LinkC (H b)) es1 -> in_cache c1 (H b) = true) ->
+      (forall d, in_cache c d = true -> in_cache cf d = true) /\
+      exists cf1, commit_entries (commit_node H) nr old st es1 c1 = Ok (es', cf1, m) /\
+                  (forall d, in_cache cf d = true -> in_cache cf1 d = true) /\
+                  (forall d o, cget cf1 d = Some o -> cget c1 d = Some o \/ exists o', cget cf d = Some o' /\ o_data o' = o_data o).
+  Proof.
+    intros Hinj. induction 1 as [|[name ch] [name1 ch1] r r1 Hst _ IH]; intros c c1 es' cf m Hc He Hsub Hlk.
+    - apply commit_entries_nil in He. injection He as -> -> ->. split; [intros d Hd; exact Hd|].
+      exists c1. split; [reflexivity|]. split; [exact Hsub|]. intros d o Hd. left. exact Hd.
+    - destruct Hst as (Hn & b & Hch & Hch1). cbn [fst snd] in Hn, Hch, Hch1. subst name1 ch.
+      apply commit_entries_cons in He
+        as [(Hs & _)|(_ & Hu & ch' & c0 & child' & es1' & m1 & Hcom & Hr & -> & ->)].
+      { cbn [is_dir] in Hs. rewrite andb_false_r in Hs. discriminate. }
+      pose proof (child_of_isdir old name (File b)) as Hd. cbn [is_dir] in Hd.
+      rewrite commit_node_leaf in Hcom by reflexivity. rewrite Hd in Hcom.
+      assert (Hdir1 : is_dir ch1 = false) by (destruct Hch1 as [-> | (-> & _)]; reflexivity).
+      assert (Hca : child_of old name ch1 = child_of old name (File b)).
+      { unfold child_of. rewrite Hdir1. reflexivity. }
+      assert (Hcons : forall c1',
+        commit_file H (child_of old name (File b)) ch1 c1 st = Ok (ch', c1', child') ->
+        (forall d, in_cache c0 d = true -> in_cache c1' d = true) ->
+        (forall d o, cget c1' d = Some o -> cget c1 d = Some o \/ exists o', cget c0 d = Some o' /\ o_data o' = o_data o) ->
+        (forall d, in_cache c d = true -> in_cache cf d = true) /\
+        exists cf1, commit_entries (commit_node H) nr old st ((name, ch1) :: r1) c1 =
+                    Ok ((name, ch') :: es1', cf1, (a_path child', child') :: m1) /\
+                  (forall d, in_cache cf d = true -> in_cache cf1 d = true) /\
+                  (forall d o, cget cf1 d = Some o -> cget c1 d = Some o \/ exists o', cget cf d = Some o' /\ o_data o' = o_data o)).
+      { intros c1' Hcom1 Hsub1 Hsup1.
+        destruct (commit_file_cache_ok H _ _ _ _ _ _ _ Hinj Hc Hcom) as [Hc0 _].
+        destruct (commit_entries_cache_ok H r Hinj _ _ _ _ _ _ _ Hc0 Hr) as [_ Hle0].
+        destruct (IH c0 c1' es1' cf m1 Hc0 Hr Hsub1) as (Hmono & cf1 & He1 & Hs1 & Hp1).
+        { intros nm b' Hin. apply (commit_file_in_cache_mono _ _ _ _ _ _ _ Hcom1).
+          exact (Hlk nm b' (or_intror Hin)). }
+        split.
+        { intros d Hd0. apply Hmono. exact (commit_file_in_cache_mono _ _ _ _ _ _ _ Hcom Hd0). }
+        exists cf1. split; [|split; [exact Hs1|]].
+        - cbn [commit_entries]. rewrite Hdir1, andb_false_r, Hu. cbn [negb].
+          rewrite (commit_node_leaf _ _ _ _ _ Hdir1), Hca, Hd, Hcom1, He1. reflexivity.
+        - intros d o Hd1. destruct (Hp1 d o Hd1) as [Hx|Hx]; [|right; exact Hx].
+          destruct (Hsup1 d o Hx) as [Hy|(o' & Hy & Ey)]; [left; exact Hy|right].
+          destruct (Hle0 _ _ Hy) as (o2 & Hg2 & E2). exists o2. split; [exact Hg2|congruence]. }
+      destruct Hch1 as [-> | (-> & Hlink & Hsk)].
+      + (* still the regular file: the same commit, on the larger cache *)
+        unfold commit_file in Hcom. rewrite qmatch_file in Hcom.
+        destruct (a_skip (child_of old name (File b))) eqn:Hsk.
+        * injection Hcom as <- <- <-. apply (Hcons c1).
+          -- unfold commit_file. rewrite qmatch_file, Hsk. reflexivity.
+          -- exact Hsub.
+          -- intros d o Hd1. left. exact Hd1.
+        * assert (Hc0 : c0 = cput c (H b) b) by (destruct st; injection Hcom as _ <- _; reflexivity).
+          apply (Hcons (cput c1 (H b) b)).
+          -- unfold commit_file. rewrite qmatch_file, Hsk.
+             destruct st; injection Hcom as <- _ <-; reflexivity.
+          -- subst c0. intros d. rewrite !in_cache_cput. destruct (beqb d (H b)); [reflexivity|].
+             cbn [orb]. apply Hsub.
+          -- subst c0. intros d o. rewrite !cget_cput. destruct (beqb d (H b)).
+             ++ intros Ho. right. exists o. split; [exact Ho|reflexivity].
+             ++ intros Hd1. left. exact Hd1.
+      + (* already the link to the object: recognised (matching) or adopted *)
+        subst st. unfold commit_file in Hcom. rewrite qmatch_file, Hsk in Hcom.
+        injection Hcom as <- <- <-.
+        pose proof (Hlk name b (or_introl eq_refl)) as Hin.
+        apply (Hcons c1).
+        * unfold commit_file.
+          destruct (qmatch c1 (a_cs (child_of old name (File b))) (Some (LinkC (H b)))) eqn:Eq.
+          -- apply qmatch_inv in Eq as (_ & Eq & _). injection Eq as Eq.
+             rewrite Eq at 3. rewrite set_cs_same. reflexivity.
+          -- rewrite Hin. reflexivity.
+        * intros d. rewrite in_cache_cput. destruct (beqb d (H b)) eqn:E; cbn [orb]; [|apply Hsub].
+          apply beqb_eq in E. subst d. intros _. exact Hin.
+        * intros d o Hd1. left. exact Hd1.
+  Qed.
+
+  (* C04 for a flat directory: from the state a failed run leaves behind (entries as in
+     [flat_state]; a cache [c1] between the initial and the final one, as every cut's cache is by
+     C03_cut_endpoints, that holds the object of every link), the retry succeeds with the same
+     workspace entry, the same recorded artifact (checksum) and a cache with the same objects
+     as the undisturbed commit.  The explicit premise [old_contents a c1 = Ok old] says that
+     the retry reads the same old manifest: it holds unless the failed run itself stored an
+     object under the stale checksum recorded in [a]. *)
+  Theorem C04_retry_dir_flat a es es1 c c1 old nf cf af :
+    H_inj H -> cache_ok H c -> keyed H c1 -> cache_le c c1 -> cache_le c1 cf ->
+    old_contents a c = Ok old -> old_contents a c1 = Ok old ->
+    Forall2 (flat_state old) es es1 ->
+    (forall name b, In (name, LinkC (H b)) es1 -> in_cache c1 (H b) = true) ->
+    commit_node H a (Dir es) c st = Ok (nf, cf, af) ->
+    exists cf1, commit_node H a (Dir es1) c1 st = Ok (nf, cf1, af) /\
+                cache_le cf cf1 /\ cache_le cf1 cf.
+  Proof.
+    intros Hinj Hc Hk1 Hle1 Hle2 Ho Ho1 Hst Hlk Hok.
+    destruct (commit_cache_ok H Hinj _ _ _ _ _ _ _ Hc Hok) as [Hcf _].
+    apply commit_dir_inv in Hok as (Hd & old' & es' & c2 & m & Ho' & He & -> & -> & ->).
+    rewrite Ho in Ho'. injection Ho' as <-.
+    assert (Hsub : forall d, in_cache c d = true -> in_cache c1 d = true).
+    { intros d. unfold in_cache. destruct (cget c d) as [o|] eqn:Hg; [|discriminate].
+      destruct (Hle1 _ _ Hg) as (o' & -> & _). reflexivity. }
+    destruct (flat_entries_retry (a_norec a) old es es1 Hinj Hst c c1 es' c2 m Hc He Hsub Hlk)
+      as (_ & cf1 & He1 & Hs1 & Hp1).
+    set (mb := enc_manifest (mkMan (a_path a) m)) in *.
+    exists (cput cf1 (H mb) mb). split.
+    - rewrite CommitProofs.commit_node_dir, Hd, Ho1, He1. reflexivity.
+    - assert (Hkf1 : keyed H (cput cf1 (H mb) mb)).
+      { intros d o. rewrite cget_cput. destruct (beqb d (H mb)) eqn:E.
+        - apply beqb_eq in E. intros Hg. injection Hg as <-. exact E.
+        - intros Hg. destruct (Hp1 _ _ Hg) as [Hg1|(o' & Hg' & Eo)]; [exact (Hk1 _ _ Hg1)|].
+          rewrite <- Eo. apply (cache_ok_keyed H _ Hcf d o').
+          rewrite cget_cput, E. exact Hg'. }
+      assert (Hpres : forall cA cB, keyed H cA -> keyed H cB ->
+                (forall d, in_cache cA d = true -> in_cache cB d = true) -> cache_le cA cB).
+      { intros cA cB HkA HkB Hin d o Hg.
+        assert (Hi : in_cache cA d = true) by (unfold in_cache; rewrite Hg; reflexivity).
+        apply Hin in Hi. unfold in_cache in Hi. destruct (cget cB d) as [o'|] eqn:Hg'; [|discriminate].
+        exists o'. split; [reflexivity|]. apply Hinj. rewrite <- (HkB _ _ Hg'). exact (HkA _ _ Hg). }
+      split; apply Hpres; try exact Hkf1; try exact (cache_ok_keyed H _ Hcf).
+      + intros d. rewrite !in_cache_cput. destruct (beqb d (H mb)); [reflexivity|]. cbn [orb]. apply Hs1.
+      + intros d. rewrite !in_cache_cput. destruct (beqb d (H mb)) eqn:E; [reflexivity|]. cbn [orb].
+        unfold in_cache at 1. destruct (cget cf1 d) as [o|] eqn:Hg; [|discriminate]. intros _.
+        destruct (Hp1 _ _ Hg) as [Hg1|(o' & Hg' & _)].
+        * destruct (Hle2 _ _ Hg1) as (o2 & Hg2 & _). rewrite cget_cput, E in Hg2.
+          unfold in_cache. rewrite Hg2. reflexivity.
+        * unfold in_cache. rewrite Hg'. reflexivity.
+  Qed.
+End RetryDir.
+Print Assumptions C04_retry_dir_flat.
+
+(* the retry after a failure in a directory: child "a" completed (link), child "b" failed at
+   its chmod (file restored by the rollback, object present with the old mode): the retry ends
+   exactly where the undisturbed commit ends *)
+Example ex_retry_dir :
+  let c1 := capply [] [wr Hx ex_x file_mode; wr Hx ex_x cache_perms; wr Hx ex_y file_mode] in
+  commit_node Hx ex_dir_art (Dir [([97], LinkC (Hx ex_x)); ([98], File ex_y)]) c1 Link =
+  commit_node Hx ex_dir_art ex_dir2 [] Link.
+Proof. vm_compute. reflexivity. Qed.
+
+(* ... whereas with the pre-repair sequence the same failure point (entry unlinked, symlink
+   failing) leaves "a" absent and the retry commits a different directory *)
+Example ex_retry_dir_prerepair :
+  let c1 := capply [] [wr Hx ex_x temp_mode; wr Hx ex_x cache_perms] in
+  exists r1 r2,
+    commit_node Hx ex_dir_art (Dir [([98], File ex_y)]) c1 Link = Ok r1 /\
+    commit_node Hx ex_dir_art ex_dir2 [] Link = Ok r2 /\
+    a_cs (snd r1) <> a_cs (snd r2).
+Proof.
+  do 2 eexists. split; [vm_compute; reflexivity|]. split; [vm_compute; reflexivity|].
+  cbn [snd a_cs]. intros E. discriminate E.
+Qed.
